@@ -152,6 +152,9 @@ def compare(c, cs, rs, g):
     # (2) heating estimator = same path
     if any(abs(x - y) > tol for x, y in zip(dep, g["heat"])):
         return c.violation("ray:heating:%s" % sig, "heating estimator path differs from intensity path (%s)" % cs, info)
+    # (2b) helium carries a quarter of the opacity in every second case: its estimators grow by the same path
+    if "dephe" in g and (any(abs(x - y) > tol for x, y in zip(dep, g["dephe"])) or any(abs(x - y) > tol for x, y in zip(dep, g["heathe"]))):
+        return c.violation("ray:helium:%s" % sig, "helium intensity / heating estimator path differs from the hydrogen one (%s)" % cs, info)
     # (3) stops inside exactly when the target is reached
     code_abs = g["out"] == 0
     if code_abs != absorbed:
